@@ -183,24 +183,23 @@ PExpect(lang, a, b) ==
 (* ------------------------------------------------------------------------------------------------------ *)
 (* I-layer vocabulary: filter_to_static_assertion_value                                                    *)
 
-Bit(n, i) == (n \div (2 ^ i)) % 2                                    \* bit i (from 0) of a natural
-Word(hi, lo) == [i \in 1..32 |-> IF i <= 16 THEN Bit(lo, i - 1) ELSE Bit(hi, i - 17)]   \* index 1 = least significant bit
-ByteWord(x) == [i \in 1..32 |-> IF i <= 8 THEN Bit(x, i - 1) ELSE 0]
-Xor(x, y) == [i \in 1..32 |-> (x[i] + y[i]) % 2]
-Shr1(x) == [i \in 1..32 |-> IF i < 32 THEN x[i + 1] ELSE 0]
-Ones == [i \in 1..32 |-> 1]
-Poly == Word(60856, 33568)                                           \* 0xEDB88320, the reflected CRC-32 polynomial
+\* A 32-bit word is a pair of 16-bit limbs <<high, low>> (TLC integers are 32-bit signed); all arithmetic is on naturals.
+RECURSIVE Xor16(_, _, _)
+Xor16(x, y, n) == IF n = 0 THEN 0 ELSE (((x % 2) + (y % 2)) % 2) + 2 * Xor16(x \div 2, y \div 2, n - 1)
+XorW(p, q) == <<Xor16(p[1], q[1], 16), Xor16(p[2], q[2], 16)>>
+Shr1(p) == <<p[1] \div 2, (p[2] \div 2) + (32768 * (p[1] % 2))>>
+Ones == <<65535, 65535>>
+Poly == <<60856, 33568>>                                             \* 0xEDB88320, the reflected CRC-32 polynomial
 
 RECURSIVE Steps(_, _)
-Steps(x, n) == IF n = 0 THEN x ELSE Steps(IF x[1] = 1 THEN Xor(Shr1(x), Poly) ELSE Shr1(x), n - 1)
+Steps(p, n) == IF n = 0 THEN p ELSE Steps(IF (p[2] % 2) = 1 THEN XorW(Shr1(p), Poly) ELSE Shr1(p), n - 1)
 RECURSIVE CrcBytes(_, _, _)
-CrcBytes(bs, i, crc) == IF i > Len(bs) THEN crc ELSE CrcBytes(bs, i + 1, Steps(Xor(crc, ByteWord(bs[i])), 8))
-Crc32(bs) == Xor(CrcBytes(bs, 1, Ones), Ones)                        \* zlib.crc32
+CrcBytes(bs, i, crc) == IF i > Len(bs) THEN crc ELSE CrcBytes(bs, i + 1, Steps(XorW(crc, <<0, bs[i]>>), 8))
+Crc32(bs) == XorW(CrcBytes(bs, 1, Ones), Ones)                       \* zlib.crc32, as limbs
 
-RECURSIVE Val(_, _, _)
-Val(x, lo, hi) == IF lo > hi THEN 0 ELSE x[lo] + 2 * Val(x, lo + 1, hi)
-Limbs(x) == <<Val(x, 17, 32), Val(x, 1, 16)>>                        \* 32-bit word as two 16-bit limbs <<high, low>>
-Keep(x, bits) == [i \in 1..32 |-> IF i <= bits THEN x[i] ELSE 0]     \* only the low `bits` bits (32 = all)
+Limbs(p) == p
+Keep(p, bits) ==                                                     \* only the low `bits` bits (32 = all)
+    IF bits >= 32 THEN p ELSE IF bits > 16 THEN <<p[1] % (2 ^ (bits - 16)), p[2]>> ELSE <<0, p[2] % (2 ^ bits)>>
 
 Utf8One(c) ==
     IF c < 128 THEN <<c>>
